@@ -274,7 +274,7 @@ def make_cases(ctx):
             c.mut = []
             cases.append(c)
             idx += 1
-    nmut = ctx.n(150, 30000)
+    nmut = ctx.n(150, 20000)
     for k in range(nmut):
         rng = ctx.subrng('mutant', k)
         r = rng.random()
